@@ -89,6 +89,9 @@ func program(c Case) (cat.Program, error) {
 }
 
 func check(c Case) error {
+	if c.Gen != nil && compose.TooLarge(*c.Gen) {
+		return nil // expands to megabytes of output: outside this family's budget
+	}
 	p, err := program(c)
 	if err != nil {
 		return err
@@ -431,13 +434,24 @@ func TestProp(t *testing.T) {
 			if err := p.Run(context.Background(), e, &ref); err != nil {
 				continue // reported by the ref case
 			}
+			// (deeply nested programs are long and slow: every 53rd offset and the last 20)
+			deep := false
+			for _, f := range p.Feat {
+				deep = deep || f == "deep"
+			}
 			for k := 0; k <= ref.Len(); k++ {
+				if deep && k%53 != 0 && k < ref.Len()-20 {
+					continue
+				}
 				each(Case{Prog: p.Name, Entry: e, Mode: "failat", K: k})
 			}
 			// transient failures: every single write call failing once; size limits
 			cw := &fw.Capture{}
 			_ = p.Run(context.Background(), e, cw)
 			for k := 0; k < cw.Writes; k++ {
+				if deep && k%11 != 0 && k < cw.Writes-5 {
+					continue
+				}
 				each(Case{Prog: p.Name, Entry: e, Mode: "failnth", K: k})
 			}
 			for _, max := range []int{0, 1, 2, 3, 4, 6, 8, 12, 16, 24, 32, 48, 64, 128} {
